@@ -1,4 +1,308 @@
-/-! Model/C03 — executable model (core Lean only; imports only NibabelModel.Basic.* / other Model files). -/
+/-
+  Model/C03 — executable model of the array proxies (core Lean only), on top of the C06 model.
+
+  Conventions (as in Model/C06)
+  * a stored array is identified with its element numbers `0 … n-1` in storage order; a proxy read
+    is described by its output shape and, per output element, the number of the stored element it
+    shows ("gather").  Values enter only through an arbitrary function `raw : Int → ρ` (file content)
+    and an arbitrary POINTWISE scaling function `f : ρ → σ → σ → β` (NumPy float arithmetic and dtype
+    promotion are external: `apply_read_scaling`, `raw * slope + inter`, `out *= slope; out += inter`).
+  * per-element scale parameters ("broadcast scale arrays") are described by the SLOT number of the
+    parameter that NumPy broadcasting pairs with the element.
+
+  Python source modelled (pinned tree after the `fix:` commits):
+    arrayproxy.py:125-216 (`__init__` copies), 387-410 `_get_unscaled`, 412-426 `_get_scaled`,
+      428-461 `get_unscaled/__array__/__getitem__`, 463-485 `reshape`
+    ecat.py:688-743 `EcatImageArrayProxy.__array__/__getitem__`, fileslice.py:140-167 `slice2outax`,
+      fileslice.py:236-266 `predict_shape`
+    parrec.py:649-690 `PARRECArrayProxy._get_unscaled/_get_scaled`
+    brikhead.py:248-265 `AFNIArrayProxy._get_scaled`, 397-417 `AFNIHeader.get_data_scaling`
+    minc1.py:148-216 `Minc1File._normalize` (which image-min/max entry meets which voxel)
+-/
+import NibabelModel.Model.C06
 namespace Nb.C03
+open Nb Nb.C06
+
+/-! ### generic `ArrayProxy` -/
+
+/-- what `ArrayProxy.__init__` keeps ("Copies of values needed to read array", arrayproxy.py:203) -/
+structure Params (σ : Type) where
+  shape : List Nat
+  isz   : Nat
+  off   : Nat
+  order : Order
+  slope : σ
+  inter : σ
+  deriving Repr, DecidableEq
+
+/-- `canonical_slicers((), shape, False)` : one `slice(None)` per axis -/
+def allFull (shape : List Nat) : List Item := shape.map (fun _ => Item.slice pySliceNone)
+
+/-- length in bytes of a file that holds exactly the array -/
+def Params.flen {σ} (p : Params σ) : Nat := p.off + p.isz * p.shape.prod
+
+/-- `ArrayProxy._get_unscaled(slicer)` (arrayproxy.py:387-410): when the canonical form of the
+    slicer (ints unchecked) equals the canonical form of `()` the whole array is read with
+    `array_from_file`, otherwise `fileslice` reads the pieces.  Result: shape and, per output
+    element enumerated in `order`, the stored element number. -/
+def getUnscaled {σ} (h : Heuristic) (p : Params σ) (idx : List IdxItem) : Except Err (List Nat × List Int) :=
+  match canonLoop false idx p.shape with
+  | .error e => .error e
+  | .ok items =>
+      if items = allFull p.shape then .ok (p.shape, (List.range p.shape.prod).map Int.ofNat)
+      else fileslice h idx p.shape p.isz p.off p.flen p.order
+
+/-- `ArrayProxy._get_scaled(dtype=None, slicer)` = `__getitem__` (arrayproxy.py:412-426, 460):
+    the scaling is applied pointwise to what `_get_unscaled` returned. -/
+def getScaled {σ ρ β} (f : ρ → σ → σ → β) (raw : Int → ρ) (h : Heuristic) (p : Params σ)
+    (idx : List IdxItem) : Except Err (List Nat × List β) :=
+  (getUnscaled h p idx).map (fun r => (r.1, r.2.map (fun q => f (raw q) p.slope p.inter)))
+
+/-- `ArrayProxy.__array__()` = `_get_scaled(slicer=())` -/
+def proxyArray {σ ρ β} (f : ρ → σ → σ → β) (raw : Int → ρ) (h : Heuristic) (p : Params σ) :
+    Except Err (List Nat × List β) := getScaled f raw h p []
+
+/-- number of `-1` entries of the shape argument of `reshape` -/
+def nUnknown (shape : List Int) : Nat := (shape.filter (· == -1)).length
+
+/-- the single unknown dimension filled in: `known_size = reduce(mul, shape, -1)`,
+    `unknown_size = size // known_size` -/
+def resolveShape (size : Nat) (shape : List Int) : List Int :=
+  if nUnknown shape = 1 then
+    let known : Int := shape.foldl (· * ·) (-1)
+    shape.map (fun e => if e == -1 then Int.fdiv (size : Int) known else e)
+  else shape
+
+/-- shape argument of `reshape`: `-1` = unknown (arrayproxy.py:465-480) -/
+def reshapeShape (size : Nat) (shape : List Int) : Except Err (List Nat) :=
+  if nUnknown shape > 1 then .error .value
+  else if (resolveShape size shape).foldl (· * ·) 1 = (size : Int) ∧ (resolveShape size shape).all (0 ≤ ·) then
+    .ok ((resolveShape size shape).map Int.toNat)
+  else .error .value
+
+/-- `ArrayProxy.reshape(shape)` (arrayproxy.py:463-485): same file, dtype, offset, slope, inter;
+    new shape.  (`order` is NOT passed on: the new proxy gets the class default order `dflt`.) -/
+def reshape {σ} (dflt : Order) (p : Params σ) (shape : List Int) : Except Err (Params σ) := do
+  let s ← reshapeShape p.shape.prod shape
+  pure { p with shape := s, order := dflt }
+
+/-! ### header → proxy: parameters are copied (`frozen_params`) -/
+
+/-- the header fields a proxy is built from -/
+structure Hdr where
+  shape : List Nat
+  isz   : Nat
+  off   : Nat
+  slope : Option Int          -- `None` = no scaling recorded
+  inter : Option Int
+  deriving Repr, DecidableEq
+
+/-- header mutators reachable through the public API after the proxy exists -/
+inductive HdrOp where
+  | setShape (s : List Nat)
+  | setIsz (n : Nat)          -- set_data_dtype
+  | setOff (n : Nat)          -- set_data_offset
+  | setSlopeInter (s i : Option Int)
+  deriving Repr, DecidableEq
+
+def Hdr.apply (h : Hdr) : HdrOp → Hdr
+  | .setShape s => { h with shape := s }
+  | .setIsz n => { h with isz := n }
+  | .setOff n => { h with off := n }
+  | .setSlopeInter s i => { h with slope := s, inter := i }
+
+/-- `ArrayProxy.__init__(file_like, header)`: `par = (get_data_shape(), get_data_dtype(),
+    get_data_offset(), 1.0 if slope is None else slope, 0.0 if inter is None else inter)` -/
+def proxyOfHdr (o : Order) (h : Hdr) : Params Int :=
+  ⟨h.shape, h.isz, h.off, o, h.slope.getD 1, h.inter.getD 0⟩
+
+/-- the pair (header object, proxy) as the program sees it: the header is mutable, the proxy holds
+    VALUES copied at construction, so a header operation rewrites the first component only -/
+structure World where
+  hdr   : Hdr
+  proxy : Params Int
+  deriving Repr, DecidableEq
+
+def World.step (w : World) (op : HdrOp) : World := { w with hdr := w.hdr.apply op }
+def World.run (w : World) (ops : List HdrOp) : World := ops.foldl World.step w
+
+/-! ### ECAT: frame assembly -/
+
+/-- split canonical items at the `k`-th real (non-newaxis) item:
+    `sliceobj[:ax_inds[k]]`, `sliceobj[ax_inds[k]]`, `sliceobj[ax_inds[k]+1:]` -/
+def splitReal : Nat → List Item → Option (List Item × Item × List Item)
+  | _, [] => none
+  | k, .newaxis :: rest => (splitReal k rest).map (fun r => (Item.newaxis :: r.1, r.2.1, r.2.2))
+  | 0, it :: rest => some ([], it, rest)
+  | k + 1, it :: rest => (splitReal k rest).map (fun r => (it :: r.1, r.2.1, r.2.2))
+
+def itemIsInt : Item → Bool | .int _ => true | _ => false
+
+/-- `predict_shape` on canonical items (fileslice.py:236-266): 1 per newaxis, nothing per int,
+    `slice2len` per slice (a zero step raises `ValueError` inside `fill_slicer`) -/
+def predictShape : List Item → List Nat → Except Err (List Nat)
+  | [], _ => .ok []
+  | .newaxis :: rest, shape => do
+      let r ← predictShape rest shape
+      pure (1 :: r)
+  | _ :: _, [] => .error .index
+  | .int _ :: rest, _ :: shape => predictShape rest shape
+  | .slice s :: rest, n :: shape =>
+      if s.Valid then do
+        let r ← predictShape rest shape
+        pure (slice2len s n :: r)
+      else .error .value
+
+/-- `out_data[(:, …, j, …, :)] = sub` (axis `k`) on the flat F-order buffer of an array of shape
+    `outShape`.  `none` = never written (`np.empty`).  NumPy raises `IndexError` for `j` beyond the
+    axis; a sub-array of another shape than the target is refused (NumPy would try to broadcast;
+    the shapes here always agree — theorem `ecat_frames`). -/
+def setAxis {α} (outShape : List Nat) (k j : Nat) (sub : NdArr α) (buf : List (Option α)) :
+    Except Err (List (Option α)) :=
+  if k ≥ outShape.length then .error .index
+  else
+    let L := (outShape.take k).prod
+    let m := outShape.getD k 0
+    if j ≥ m then .error .index
+    else if sub.shape ≠ outShape.eraseIdx k then .error .value
+    else
+      .ok ((List.range buf.length).map (fun p =>
+        if (p / L) % m = j then (sub.data[p % L + L * (p / L / m)]?) else buf.getD p none))
+
+/-- NumPy basic indexing `A[sels]` of an F-order array of shape `shape` whose element number `q`
+    holds `a q` (same as `NdArr.index`, with the content given as a function) -/
+def indexFn {α} (a : Nat → α) (shape : List Nat) (sels : List Sel) : NdArr α :=
+  ⟨outShape sels, (gatherF (realSels sels) shape).map a⟩
+
+/-- the content of frame `i` in GLOBAL element numbers of the stacked 4-D array: its element `e`
+    (F order over the three spatial axes, after the orientation flips) is element `e + V*i`,
+    `V = x*y*z` -/
+def frameElem (shape3 : List Nat) (i : Nat) (e : Nat) : Nat := e + shape3.prod * i
+
+/-- number of output axes the items produce (newaxis and slices; ints drop) -/
+def nonIntCount (items : List Item) : Nat := (items.filter (fun it => !itemIsInt it)).length
+
+/-- the `for out_i, i in enumerate(range(T)[slice3])` loop (ecat.py:739-742); `pos out_i i` is the
+    position written on the frame axis of the output -/
+def ecatLoop (sub : Nat → Except Err (NdArr Nat)) (outShape : List Nat) (k : Nat) (pos : Nat → Nat → Nat) :
+    Nat → List Nat → List (Option Nat) → Except Err (List (Option Nat))
+  | _, [], buf => .ok buf
+  | t, i :: rest, buf => do
+      let s ← sub i
+      let buf' ← setAxis outShape k (pos t i) s buf
+      ecatLoop sub outShape k pos (t + 1) rest buf'
+
+/-- `EcatImageArrayProxy.__getitem__` (ecat.py:715-743) for a proxy of shape `shape3 ++ [T]`.
+    Result: shape and flat F-order data; `none` = element of `np.empty` never written. -/
+def ecatGetitemWith (pos : Nat → Nat → Nat) (shape3 : List Nat) (T : Nat) (idx : List IdxItem) :
+    Except Err (List Nat × List (Option Nat)) := do
+  let shape4 := shape3 ++ [T]
+  let items ← canonicalSlicers idx shape4
+  match splitReal shape3.length items with
+  | none => .error .value                                   -- assert len(ax_inds) == len(self.shape)
+  | some (pre, slice3, post) =>
+      let inSlicer := pre ++ post
+      let sub : Nat → Except Err (NdArr Nat) := fun i => do   -- data[in_slicer]  (NumPy)
+        let sels ← itemsSels inSlicer shape3
+        pure (indexFn (frameElem shape3 i) shape3 sels)
+      match slice3 with
+      | .newaxis => .error .value
+      | .int i =>
+          if 0 ≤ i ∧ i < T then do                          -- frame_mapping[slice3]
+            let a ← sub i.toNat
+            pure (a.shape, a.data.map some)
+          else .error .index
+      | .slice s => do
+          let outShape ← predictShape items shape4
+          let k := nonIntCount pre                            -- slice2outax(4, sliceobj)[3]
+          let buf ← ecatLoop sub outShape k pos 0 (s.sel T) (List.replicate outShape.prod none)
+          pure (outShape, buf)
+
+/-- the code after the `fix:` commit: write to the OUTPUT position -/
+def ecatGetitem := ecatGetitemWith (fun outI _ => outI)
+/-- the pinned code: `out_slicer[in2out_ind] = i` — the SOURCE frame index -/
+def ecatGetitemOrig := ecatGetitemWith (fun _ i => i)
+
+/-- `EcatImageArrayProxy.__array__` (ecat.py:688-713): `data[:, :, :, i] = frame i` for every frame -/
+def ecatArray (shape3 : List Nat) (T : Nat) : List Nat × List Nat :=
+  (shape3 ++ [T], (List.range T).flatMap (fun i => (List.range shape3.prod).map (frameElem shape3 i)))
+
+/-! ### PAR/REC -/
+
+/-- `indices[0] != 0 or np.any(np.diff(indices) != 1)` is False -/
+def isSequential (indices : List Nat) : Bool := indices == List.range indices.length
+
+/-- `rec_data[..., indices].reshape(shape, order='F')` as REC element numbers; `S` = elements per
+    slice (`rec_shape[0]*rec_shape[1]`) -/
+def parrecWhole (S : Nat) (indices : List Nat) : List Nat :=
+  indices.flatMap (fun r => (List.range S).map (· + S * r))
+
+/-- `PARRECArrayProxy._get_unscaled(slicer)` (parrec.py:649-667); `idx = none` stands for the
+    literal `()` (the test is `slicer == ()`).  Output: shape and REC element numbers (F order). -/
+def parrecUnscaled (h : Heuristic) (shape : List Nat) (isz S : Nat) (indices : List Nat)
+    (idx : List IdxItem) : Except Err (List Nat × List Int) :=
+  let whole := parrecWhole S indices
+  if idx = [] then .ok (shape, whole.map Int.ofNat)
+  else if !(isSequential indices) then do
+    let r ← npIndex idx shape .F                              -- self._get_unscaled(())[slicer]
+    pure (r.1, r.2.map (fun q => Int.ofNat (whole.getD q 0)))
+  else fileslice h idx shape isz 0 (isz * shape.prod) .F
+
+/-- slot (sorted slice number) of the slope/intercept that `slopes[slicer]` pairs with each output
+    element: `slopes` is the `(1, 1) + shape[2:]` array broadcast to `shape` (parrec.py:677-686) -/
+def parrecScaleSlots (shape : List Nat) (S : Nat) (idx : List IdxItem) : Except Err (List Nat × List Nat) := do
+  let r ← npIndex idx shape .F
+  pure (r.1, r.2.map (· / S))
+
+/-! ### AFNI -/
+
+/-- `AFNIHeader.get_data_scaling` (brikhead.py:397-417): `None` when no factor is non-zero, else a
+    vector of ones of length `nvol` in which the NON-ZERO factors are written (a zero factor means
+    "not scaled").  Factors are abstract (`σ`); `isZero` and `one` are what NumPy provides. -/
+def afniScaling {σ} (isZero : σ → Bool) (one : σ) (nvol : Nat) (facs : Option (List σ)) : Option (List σ) :=
+  match facs with
+  | none => none
+  | some fs =>
+      if fs.all isZero then none
+      else some ((List.range nvol).map (fun t =>
+        match fs[t]? with
+        | some v => if isZero v then one else v
+        | none => one))
+
+/-- slot (sub-brick number) of the factor that `scaling[slicer]` pairs with each output element:
+    the length-`T` vector is broadcast along the LAST axis of `shape` (brikhead.py:257-265) -/
+def afniScaleSlots (shape : List Nat) (idx : List IdxItem) : Except Err (List Nat × List Nat) := do
+  let r ← npIndex idx shape .F
+  pure (r.1, r.2.map (· / (shape.dropLast).prod))
+
+/-! ### MINC -/
+
+/-- leading part of canonical items: everything before the `k`-th real item -/
+def takeReal : Nat → List Item → List Item
+  | _, [] => []
+  | k, .newaxis :: rest => Item.newaxis :: takeReal k rest
+  | 0, _ :: _ => []
+  | k + 1, it :: rest => it :: takeReal k rest
+
+/-- `Minc1File._normalize` (minc1.py:191-210): which entry of `image-max`/`image-min` (C-order
+    element number of the `shape[:nscales]` array) is applied to each output element, output
+    enumerated in C order.  `i_slicer = sliceobj[:ax_inds[nscales]] + (None,)*#non-int items after`,
+    then NumPy broadcasting against the sliced data (same number of axes; trailing axes of the
+    sliced scale array have length 1). -/
+def mincScaleSlots (nscales : Nat) (shape : List Nat) (idx : List IdxItem) : Except Err (List Nat × List Nat) := do
+  let items ← canonicalSlicers idx shape
+  let lead := takeReal nscales items
+  let trail := items.drop lead.length
+  let sShape := shape.take nscales
+  -- imax[i_slicer]: NumPy indexing of the C-order scale array by the leading items
+  let sels ← itemsSels (orient .C lead) (orient .C sShape)
+  let sOut := orient .C (outShape sels)                         -- shape of the sliced scale array
+  let sSrc := gatherF (realSels sels) (orient .C sShape)        -- its elements, C order
+  -- the sliced data
+  let d ← npIndex idx shape .C
+  let R := (d.1.drop sOut.length).prod                          -- size of the trailing (broadcast) part
+  if d.1.length ≠ sOut.length + nonIntCount trail then .error .value
+  else if d.1.take sOut.length ≠ sOut then .error .value        -- broadcasting of unequal non-1 axes
+  else pure (d.1, (List.range d.2.length).map (fun k => sSrc.getD (k / R) 0))
 
 end Nb.C03
